@@ -122,6 +122,11 @@ def _validate(ctx, blocks, name):
 
 
 def run(ctx, replay=None):
+    if replay and json.load(open(replay)).get("family") == "keysched":
+        import keysched
+        keysched.run_part(ctx)
+        return ctx.finish(level="model_checking", rule="lock-level schedules of concurrent first uses (replay)", exhaustive=False,
+                          technique="controlled schedules on the real keystore wrapper; TLC trace validation against MonKeySched")
     ov = ctx.overlay({PKG: FILES})
     if replay:
         scripts, nscript = [json.load(open(replay))["script"]], 1
@@ -168,6 +173,10 @@ def run(ctx, replay=None):
                         "which account / proof key a store holds is read from the keystore namespace of the in-memory datastore supplied by the driver",
                         "import on a store that holds only a proof key (it derived a member key and nothing else) is left open by the property statement; the current code refuses it",
                         "TLC 1.8.0 and the Go toolchain trusted"]
+    if not replay:
+        # concurrent FIRST uses of a fresh store under controlled lock-level schedules (MonKeySched.tla)
+        import keysched
+        keysched.run_part(ctx)
     return ctx.finish(level="model_checking",
                       rule="scripts = every call order TLC enumerates up to 3-4 operations over 3 interchangeable stores (stores taken into use in a fixed order), -simulate walks beyond, plus blocks of 8 fresh accounts deriving all 28 pairs both ways; non-trivial = blocks with at least 4 different kinds of calls",
                       exhaustive=False,
